@@ -1,6 +1,7 @@
 import SamplyModel.Proto
 import SamplyModel.Model.FileCreation
 import SamplyModel.Model.DownloadWrite
+import SamplyModel.Model.FileCreationAsync
 /-!
 Line protocol for C16. One case = one op line.
 
@@ -44,6 +45,31 @@ Line protocol for C16. One case = one op line.
     out: `symindexfault lookup=ok`, `observations bad=<n>`, `final symindex=absent|complete|partial:<len>`,
     `retry lookup=ok symindex=complete`.
 
+`cancelwrite site=symindex a=<FA> b=<FB> isizea=<IA> isizeb=<IB> seed=<s>`
+    creator A (a `SymbolManager` in its own process, blocking pool of ONE thread that the harness keeps busy)
+    blocks on the lock (held by the harness), gets it, opens `.part`, hands its `write_all` to the blocking pool
+    and is cancelled (future dropped) in `flush().await`; creator B (another version of the `.sym`, `IB` bytes of
+    index) then creates the `.symindex`; finally the pool thread is released and A's queued write is executed.
+    The model is `FCA.next false` (Model/FileCreationAsync.lean): the code as it is.
+    out: `cancelwrite a=cancelled part_at_cancel=<len>`, `after_b lookup=ok symindex=complete`,
+    `observations bad=<0|1>`, `final symindex=complete|bad`.
+
+`cancelwrite site=download …`: the same on the downloader call site (A's download is cancelled in
+    `stream.read().await` while the server holds the rest of the body back; B downloads a replaced file).
+
+`poolwait k=<K> waiters=<W> seed=<s>`
+    one runtime whose blocking pool has K threads; creator 0 sits in its write callback (which writes through a
+    `tokio::fs::File`), W ≥ K further creators wait for the lock, then creator 0 writes. Waiting for the lock must
+    not use the blocking pool (file_creation.rs:208-212). Model: W+1 creators whose writers succeed.
+    out: `poolwait created=1 existing=<W> err=0 stuck=0`, `final dest=complete part=absent lock=absent`.
+
+In `round` ops `cw` creators are cancelled (mode=threads) or SIGKILLed (mode=procs) while they are blocked in
+flock; `sig=<S>` (mode=procs) sends S signals without SA_RESTART to every blocked flock thread (EINTR and
+retry: no transition of the model); `sigx=<K>` (mode=procs) signals the last K late creators until their retry
+loop gives up after five interruptions (model: `fail` at `.waiting`, outcome `err:locking`); `ce=<K>` (mode=threads)
+starts K more creators after the round, one after the other: each suspends inside `handle_existing_fn` and has its
+future dropped there (model: `cancel` at `.exUnlinked`), or creates the file if nobody did.
+
 The judge evaluates the statement of C16 on the implementation's lines only (no model involved).
 -/
 namespace C16
@@ -74,6 +100,7 @@ def parseFate (s : String) : Fate :=
   | ["fail", k] => .fail (nat! k)
   | ["kill", k] => .kill (nat! k)
   | ["cancel", k] => .cancel (nat! k)
+  | ["rfail"] => .failRename
   | _ => .ok
 
 def parseList (s : String) : List String :=
@@ -258,16 +285,48 @@ def simRound (ws : List String) : List String := Id.run do
   sim := drain cfg sim early
   if late + cw > 0 then
     sim := drain cfg sim (early ++ latePids ++ cwPids)
+    -- `sigx` late creators are signalled until their blocking flock has been interrupted five times and the
+    -- retry loop gives up (file_creation.rs:233-244): the flock fails
+    for p in (latePids.reverse.take (kvNat ws "sigx" 0)) do
+      match sim.s.pc p with
+      | .waiting _ =>
+        match next sim.pl sim.s (.fail p) with
+        | some s' => sim := { sim with s := s' }
+        | none => pure ()
+      | _ => pure ()
     -- the waiters that are to be cancelled are now blocked in flock: drop their futures
     for p in cwPids do
+      if (kv ws "mode").getD "threads" = "procs" then
+        -- a separate process blocked in flock is SIGKILLed
+        match sim.s.pc p with
+        | .waiting _ =>
+          match next sim.pl sim.s (.crash p) with
+          | some s' => sim := { sim with s := s', killed := p :: sim.killed }
+          | none => pure ()
+        | _ => pure ()
+      else
       match next sim.pl sim.s (.cancel p) with
       | some s' => sim := { sim with s := s', cancelled := p :: sim.cancelled }
       | none => pure ()
     sim := { sim with gateOpen := true }
     sim := drain cfg sim (early ++ latePids ++ cwPids)
-  let all := early ++ latePids ++ cwPids
+  -- `ce` more creators, one after the other: dropped inside the existing-file handler (await point :126) if they
+  -- find the destination; otherwise they create it
+  let cePids := (List.range (kvNat ws "ce" 0)).map (· + n + cw)
+  for p in cePids do
+    for _ in [0:60] do
+      match sim.s.pc p with
+      | .exUnlinked =>
+        match next sim.pl sim.s (.cancel p) with
+        | some s' => sim := { sim with s := s', cancelled := p :: sim.cancelled }
+        | none => pure ()
+      | _ =>
+        match actOnce cfg sim p with
+        | some sim' => sim := sim'
+        | none => pure ()
+  let all := early ++ latePids ++ cwPids ++ cePids
   let count (o : String) : Nat := (all.filter fun p => (outcomeOf sim p).startsWith o).length
-  out := out ++ [s!"outcomes created={count "created"} existing={count "existing"} err={count "err"} killed={count "killed"} cancelled={count "cancelled"}"]
+  out := out ++ [s!"outcomes created={count "created"} existing={count "existing"} err={count "err"} killed={count "killed"} cancelled={count "cancelled"} err_rename={count "err:rename"}"]
   if count "stuck" + count "dead" > 0 then out := out ++ ["stuck creators"]
   out := out ++ [s!"writes_ok={sim.writesOk}", s!"max_active={sim.maxActive}",
                  s!"observations bad={sim.bad}",
@@ -387,12 +446,63 @@ def simSymindexFault (ws : List String) : List String :=
   let sim := drain cfg sim [1]
   ["symindexfault lookup=ok", s!"observations bad={sim.bad}", l3, s!"retry lookup=ok symindex={sim.destClass}"]
 
+/-- the `cancelwrite` scenario on the deferred-write model of the code as it is (`joinOnDrop = false`):
+creator 9 = the harness holding the lock, 0 = A (one write), 1 = B -/
+def simCancelWrite (ws : List String) : List String :=
+  let ia := kvNat ws "isizea" 1
+  let ib := kvNat ws "isizeb" 2
+  -- A's single write covers the first `ia` bytes: all of B's file if B is not longer
+  let pl : Pid → Content := fun p => if p = 0 then [1] else if p = 1 then (if ia < ib then [1001, 1002] else [1001]) else [9]
+  let b (a : FC.Act) : FCA.Act := .base a
+  let upToCancel : List FCA.Act :=
+    [b (.step 9), b (.step 9), b (.step 9),              -- the harness: lock file, flock, (stat)
+     b (.step 0), b (.step 0),                           -- A: lock file, try-lock fails, waits
+     b (.crash 9),                                       -- the harness closes its descriptor
+     b (.step 0), b (.step 0), b (.step 0), b (.step 0), -- A: flock, stat, open .part, write_all (queued)
+     b (.cancel 0)]
+  let bRuns : List FCA.Act := (List.replicate (if ia < ib then 10 else 9) (b (.step 1)))
+  match FCA.run false pl FCA.State.init upToCancel with
+  | none => ["model: schedule not executable (1)"]
+  | some s1 =>
+    let partLen := match s1.partDisk with
+      | some c => if c.isEmpty then "0" else toString ia
+      | none => "-1"
+    let how := if s1.base.pc 0 = .dead then "cancelled" else "finished"
+    match FCA.run false pl s1 bRuns with
+    | none => ["model: schedule not executable (2)"]
+    | some s2 =>
+      let cls (s : FCA.State) : String := match s.destDisk with
+        | none => "absent"
+        | some c => if c = pl 1 then "complete" else "bad"
+      let bOk := s2.base.pc 1 = .doneCreated
+      -- the blocking pool executes what is still queued
+      let s3 := (List.range s2.inflight.length).foldl (fun s _ => (FCA.next false pl s (.land 0)).getD s) s2
+      [s!"cancelwrite a={how} part_at_cancel={partLen}",
+       s!"after_b lookup={if bOk then "ok" else "err"} symindex={cls s2}",
+       s!"observations bad={if cls s3 = "bad" ∨ cls s2 = "bad" then 1 else 0}",
+       s!"final symindex={cls s3}"]
+
+def simPoolwait (ws : List String) : List String :=
+  let w := kvNat ws "waiters" 1
+  let cfg : Cfg := { fates := [], sizes := [2, 1] }
+  let pids := List.range (w + 1)
+  -- creator 0 is parked inside its callback while the others arrive and block
+  let sim : Sim := { gateOpen := false, gateIdx := some 0 }
+  let sim := drain cfg sim [0]
+  let sim := drain cfg sim pids
+  let sim := drain cfg { sim with gateOpen := true } pids
+  let count (o : String) : Nat := (pids.filter fun p => (outcomeOf sim p).startsWith o).length
+  [s!"poolwait created={count "created"} existing={count "existing"} err={count "err"} stuck={count "stuck"}",
+   finalLine sim]
+
 def model (ls : List String) : List String :=
   match ls with
   | [l] =>
     let ws := words l
     match ws.head? with
     | some "symindexfault" => simSymindexFault ws
+    | some "cancelwrite" => simCancelWrite ws
+    | some "poolwait" => simPoolwait ws
     | some "download" => simDownload ws
     | some "trace" => simTrace ws
     | some "round" => simRound ws
@@ -406,7 +516,7 @@ def findLine (impl : List String) (pfx : String) : Option (List String) :=
   (impl.find? (·.startsWith pfx)).map words
 
 def judgeRound (ws impl : List String) : Bool × String :=
-  let n := kvNat ws "n" 1 + kvNat ws "cw" 0
+  let n := kvNat ws "n" 1 + kvNat ws "cw" 0 + kvNat ws "ce" 0
   match findLine impl "outcomes", findLine impl "writes_ok", findLine impl "observations",
         findLine impl "final", findLine impl "retry" with
   | some o, some w, some b, some f, some r =>
@@ -419,7 +529,10 @@ def judgeRound (ws impl : List String) : Bool × String :=
     else if dest ≠ "absent" ∧ dest ≠ "complete" then (false, s!"final destination is {dest}: neither absent nor one writer's complete payload")
     else if total ≠ n then (false, s!"{total} outcomes for {n} creators")
     else if created > 1 then (false, s!"{created} creators report having created the file")
-    else if kvNat w "writes_ok" 99 > 1 then (false, s!"the contents were written successfully {kvNat w "writes_ok" 99} times")
+    -- a write whose rename was MADE to fail from outside (`lead=renamefail:…`: one injected error) is a failed
+    -- attempt and does not count (C16_written_at_most_once); a rename that fails without injection is no excuse
+    else if kvNat w "writes_ok" 99 > 1 + min (kvNat o "err_rename" 0) (if ((kv ws "lead").getD "-").startsWith "renamefail" then 1 else 0) then
+      (false, s!"the contents were written successfully {kvNat w "writes_ok" 99} times")
     else if created + existing > 0 ∧ dest ≠ "complete" then (false, "a creator returned success but the destination is not complete")
     else if ¬ impl.contains "seen ok" then (false, "a creator that returned success did not see the complete file")
     else if (kv r "dest").getD "?" ≠ "complete" then (false, "after the retry the destination is not complete")
@@ -471,12 +584,37 @@ def judgeSymindexFault (_ws impl : List String) : Bool × String :=
     else (true, "ok")
   | _, _, _, _ => (false, "missing summary lines")
 
+def judgeCancelWrite (_ws impl : List String) : Bool × String :=
+  match findLine impl "cancelwrite", findLine impl "after_b", findLine impl "observations", findLine impl "final" with
+  | some c, some a, some b, some f =>
+    if (kv c "a").getD "?" ≠ "cancelled" then (false, s!"harness: creator A was not cancelled inside its write callback ({(kv c "a").getD "?"})")
+    else if (kv a "symindex").getD "?" ≠ "complete" ∨ (kv a "lookup").getD "?" ≠ "ok" then
+      (false, s!"after the cancelled attempt a second creator did not produce the complete file (lookup={(kv a "lookup").getD "?"} symindex={(kv a "symindex").getD "?"})")
+    else if (kv f "symindex").getD "?" ≠ "complete" ∨ kvNat b "bad" 1 ≠ 0 then
+      (false, s!"[cancel-inflight-write] after a creator had returned success with the complete file at the final path, the final path holds {(kv f "symindex").getD "?"}: a write issued by the cancelled creator was executed after its lock had been released")
+    else (true, "ok")
+  | _, _, _, _ => (false, "missing summary lines")
+
+def judgePoolwait (ws impl : List String) : Bool × String :=
+  match findLine impl "poolwait", findLine impl "final" with
+  | some r, some f =>
+    let n := kvNat ws "waiters" 1 + 1
+    let dest := (kv f "dest").getD "?"
+    if kvNat r "stuck" 1 ≠ 0 then (false, s!"{kvNat r "stuck" 1} creators never finished: the creators waiting for the lock prevented the lock holder's attempt from completing")
+    else if dest ≠ "complete" then (false, s!"final destination is {dest}")
+    else if kvNat r "created" 0 ≠ 1 then (false, s!"{kvNat r "created" 0} creators report having created the file")
+    else if kvNat r "created" 0 + kvNat r "existing" 0 ≠ n then (false, s!"only {kvNat r "created" 0 + kvNat r "existing" 0} of {n} fault-free creators succeeded")
+    else (true, "ok")
+  | _, _ => (false, "missing summary lines")
+
 def judge (ops impl : List String) : Bool × String :=
   match ops with
   | [l] =>
     let ws := words l
     match ws.head? with
     | some "symindexfault" => judgeSymindexFault ws impl
+    | some "cancelwrite" => judgeCancelWrite ws impl
+    | some "poolwait" => judgePoolwait ws impl
     | some "download" => judgeDownload ws impl
     | some "trace" => judgeTrace ws impl
     | some "round" => judgeRound ws impl
